@@ -61,7 +61,11 @@ def opTdec (args : List String) : String :=
       let k := (nowMS - 2999) / 2000
       -- (the handler works on the query-unescaped path: a `+` arrives as a blank)
       let path := "/" ++ dir.replace "+" " " ++ "/V300/" ++ toString k ++ ".m4s"
-      let d := (Traffic.route pats path.toList nowMS).1
-      if d == .crash then "PANIC" else toString d.code
+      let (d, rest) := Traffic.route pats path.toList nowMS
+      -- (`fix:` commit f0d9664) the part handed on must be the whole media path of a representation: a directory that
+      -- is not `bu<n>` stays in front of it, and such a path addresses nothing
+      if d == .crash then "PANIC"
+      else if d == .noPattern ∧ rest ≠ ("/V300/" ++ toString k ++ ".m4s").toList then "404"
+      else toString d.code
     | _, _ => "bad-op"
   | _ => "bad-op"
